@@ -364,6 +364,13 @@ func (g *Gen) Next() Step {
 			}
 			g.noteDetach(c, st)
 			return st
+		case "m.setfail":
+			c := g.pickTarget(true, false)
+			if c == nil || len(c.Keys) == 0 {
+				continue
+			}
+			k := specOfKey(c.Keys[r.Intn(len(c.Keys))])
+			return Step{Op: op, C: c.CID, K: &k}
 		case "settype":
 			c := g.pickTarget(false, true)
 			if c == nil {
